@@ -29,12 +29,18 @@ package ice
 //@   requires C09 offered-candidate-was-never-started: baseOf(cand).closeCh == nil
 //@   modifies candidateConn.gClosed, candidateConn.gHeld, fam:*
 //@   ensures success-consumes-the-socket: result == nil ==> (candidateConn.gHeld && candidateConn.gClosed == old(candidateConn.gClosed)) || (!candidateConn.gHeld && candidateConn.gClosed == old(candidateConn.gClosed) + 1)
-//@   ensures failure-leaves-it-with-the-caller: result != nil ==> candidateConn.gClosed == old(candidateConn.gClosed) && candidateConn.gHeld == old(candidateConn.gHeld) && unchangedExcept()
+//@   ensures failure-leaves-it-with-the-caller: result != nil ==> candidateConn.gClosed == old(candidateConn.gClosed) && candidateConn.gHeld == old(candidateConn.gHeld) && unchangedExcept("E_error*")
 
 // The loop task of addCandidate: a duplicate candidate's socket is closed here,
 // otherwise the candidate is started with exactly the offered socket and owns it.
 //@ func (*Agent).addCandidate$1
 //@   props C09 C18
+//@   ghostvar cancelled bool = false
+//@   site call Err#1 assert asks-the-gathering-context-of-this-candidate: recv == ctx
+//@   site call Err#1 ghost cancelled := result != nil
+//@   site call start#1 assert a-candidate-of-a-cancelled-cycle-is-never-started-nor-announced: !cancelled && !ctxIsDone(ctx)
+//@   ensures the-cancellation-is-reported-exactly-when-seen: (addErr != nil) == cancelled
+//@   ensures a-cancelled-cycle-changes-nothing-and-leaves-the-socket-with-the-caller: addErr != nil ==> candidateConn.gClosed == old(candidateConn.gClosed) && candidateConn.gHeld == old(candidateConn.gHeld) && unchangedExcept("E_error*")
 //@   requires cand != nil && candidateConn != nil && !candidateConn.gHeld
 //@   requires offered-candidate-was-never-started: baseOf(cand).closeCh == nil
 //@   loop 1 invariant socket-still-with-the-task: candidateConn.gClosed == old(candidateConn.gClosed) && !candidateConn.gHeld
@@ -46,7 +52,7 @@ package ice
 //@   site call filterForLocationTracking#1 assert C18 asks-the-added-candidate: recv == cand
 //@   site call filterForLocationTracking#1 ghost tracked := result
 //@   site call EnqueueCandidate#1 assert C18 location-tracked-candidates-are-never-published: !tracked && arg1 == cand
-//@   ensures the-task-consumes-the-socket: (candidateConn.gHeld && candidateConn.gClosed == old(candidateConn.gClosed)) || (!candidateConn.gHeld && candidateConn.gClosed == old(candidateConn.gClosed) + 1)
+//@   ensures the-task-consumes-the-socket-unless-the-cycle-was-cancelled: addErr != nil || (candidateConn.gHeld && candidateConn.gClosed == old(candidateConn.gClosed)) || (!candidateConn.gHeld && candidateConn.gClosed == old(candidateConn.gClosed) + 1)
 
 // One server-reflexive gathering attempt (per URL and local address).
 //@ func (*Agent).gatherCandidatesSrflx$1
